@@ -37,7 +37,30 @@ Inductive oobs := OAccepted | ORefused | ORead (o : obs).
 
 Inductive c01case :=
 | CDag (g : dagl) (keys : list (V * entry)) (v : V) (fuel : nat) (o : obs)
-| CHist (ops : list op) (observed : list oobs).
+| CHist (ops : list op) (observed : list oobs)
+(* the same requests against an unversioned instance: instanceSelector evaluates them at the
+   repo's root version whatever uuid they name, and applies no committed-node check *)
+| CUnv (ops : list op) (observed : list oobs).
+
+Fixpoint unv_trace (ops : list op) (st : list (N * entry)) : list out :=
+  match ops with
+  | [] => []
+  | OPut k _ x :: r => Accepted :: unv_trace r ((k, Val x) :: st)
+  | ODel k _ :: r => Accepted :: unv_trace r ((k, Tomb) :: st)
+  | OGet k _ :: r =>
+    Read (match assoc k st with Some (Val x) => RFound 1 x | _ => RNone end) :: unv_trace r st
+  | OCommit _ a :: r => (if a then Accepted else Refused) :: unv_trace r st
+  | OChild _ a :: r => (if a then Accepted else Refused) :: unv_trace r st
+  end.
+
+Definition out_matches_unv (o : oobs) (x : out) : bool :=
+  match o, x with
+  | OAccepted, Accepted => true
+  | ORefused, Refused => true
+  | ORead (ObsVal v _), Read (RFound _ v') => v =? v'
+  | ORead ObsNone, Read RNone => true
+  | _, _ => false
+  end.
 
 Definition out_matches (o : oobs) (x : out) : bool :=
   match o, x with
@@ -58,6 +81,7 @@ Definition model_ok (c : c01case) : bool :=
   match c with
   | CDag g keys v fuel o => obs_matches o (read (parents_of g) (kvv_of keys) fuel fuel v)
   | CHist ops observed => all2 out_matches observed (trace ops core_init)
+  | CUnv ops observed => all2 out_matches_unv observed (unv_trace ops [])
   end.
 
 (* property-level oracle: every observed read equals the frontier read of the specification,
@@ -87,6 +111,7 @@ Definition spec_class (c : c01case) : nat :=
   | CDag g keys v fuel o =>
     if obs_allowed o (frontier_read (parents_of g) (kvv_of keys) fuel v) then 0%nat else 1%nat
   | CHist ops observed => if hist_spec ops observed core_init then 0%nat else 1%nat
+  | CUnv ops observed => if all2 out_matches_unv observed (unv_trace ops []) then 0%nat else 2%nat
   end.
 
 Fixpoint classify_from (i : nat) (l : list c01case) : list (nat * nat) :=
